@@ -463,6 +463,7 @@ def setitem(eng, base, idx, val):
                 base.val = z3.Store(base.val, kz, content)
                 base.lens = z3.Store(base.lens, kz, ln)
                 val.frozen = True  # the stored object is aliased by the dict entry from now on: no write may follow
+                eng.assumptions.add("dict-model: int lists are stored in / read from this dict by value; the stored list and the entries handed out are frozen (any later write through either is a failed frame obligation), so value and reference semantics agree")
                 return
             raise Unsupported("store of a list into a symbolic dict")
         base.val = z3.Store(base.val, kz, to_z3(val, base.vkind))
